@@ -6,7 +6,7 @@ import itertools
 
 import numpy as np
 
-from ..core import AnalysisError, call_name, dotted, is_self_attr, kwarg
+from ..core import AnalysisError, call_name, dotted, func_params, is_self_attr, kwarg
 from ..flow import dominating_atoms, block_of, enclosing_loops
 from .. import fdx
 from .. import fields as F
@@ -222,11 +222,18 @@ def replay_isolation_rule(ctx, rid):
     sb = repo.cls('cirq.sim.simulator_base.SimulatorBase')
     run = repo.method(sb.qual, '_run')
     parents = sb.mod.parents()
+    from ..flow import is_all_but_last_test, loop_index_and_bound
     calls = [c for c in ast.walk(run) if isinstance(c, ast.Call) and call_name(c) == '_core_iterator']
-    in_loop = [c for c in calls if any(isinstance(l, ast.For) and 'range(repetitions)' in ast.unparse(l.iter) for l in enclosing_loops(parents, c, run))]
+    rep_params = {p for p in func_params(run) if 'repetition' in p}
+    in_loop = []
+    for c in calls:
+        for l in enclosing_loops(parents, c, run):
+            ib = loop_index_and_bound(l) if isinstance(l, ast.For) else None
+            if ib is not None and {n.id for n in ast.walk(ib[1]) if isinstance(n, ast.Name)} & rep_params:
+                in_loop.append((c, l))
     if not in_loop:
         raise AnalysisError('_run: per-repetition _core_iterator call vanished')
-    for c in in_loop:
+    for c, l in in_loop:
         v = kwarg(c, 'sim_state')
         ok = False
         msg = 'sim_state argument missing'
@@ -235,7 +242,7 @@ def replay_isolation_rule(ctx, rid):
                 ok = True
             elif isinstance(v, ast.IfExp):
                 cp = isinstance(v.body, ast.Call) and call_name(v.body) == 'copy'
-                last = 'repetitions - 1' in ast.unparse(v.test) and isinstance(v.test, ast.Compare) and isinstance(v.test.ops[0], ast.Lt)
+                last = is_all_but_last_test(v.test, l)
                 ok = cp and last and isinstance(v.orelse, ast.Name)
                 msg = '' if ok else f'`{ast.unparse(v)[:70]}` does not copy the state for every repetition but the last'
             else:
@@ -244,18 +251,25 @@ def replay_isolation_rule(ctx, rid):
     fast = [c for c in ast.walk(run) if isinstance(c, ast.Call) and call_name(c) == 'sample_measurement_ops']
     if not fast:
         raise AnalysisError('_run: sample_measurement_ops fast path vanished')
-    atoms = [ast.unparse(a) for a, pol in dominating_atoms(parents, fast[0], run) if pol]
-    ok = any('all(' in a and 'MeasurementGate' in a and 'general_ops' in a for a in atoms)
+    # guard: all(isinstance(<op>.gate, MeasurementGate) for <op> in <the operations of the suffix>)
+    ok = False
+    for a, pol in dominating_atoms(parents, fast[0], run):
+        if pol and isinstance(a, ast.Call) and call_name(a) == 'all' and a.args and isinstance(a.args[0], (ast.GeneratorExp, ast.ListComp)):
+            g = a.args[0]
+            e = g.elt
+            if isinstance(e, ast.Call) and call_name(e) == 'isinstance' and len(e.args) == 2 and 'MeasurementGate' in ast.unparse(e.args[1]) and not g.generators[0].ifs:
+                ok = True
     ctx.ob(rid, f'{sb.qual}._run:fast-path-guard', ok, '' if ok else 'the one-simulation/many-samples path is not restricted to suffixes made only of measurement gates', sb.mod.rel, fast[0].lineno)
     # sweep: the state handed in is copied for every point but the last
     sis = repo.cls('cirq.sim.simulator.SimulatesIntermediateState')
     ssi = repo.method(sis.qual, 'simulate_sweep_iter')
     ok = False
+    state_params = {p for p in func_params(ssi) if 'state' in p}
     for n in ast.walk(ssi):
-        if isinstance(n, ast.IfExp) and isinstance(n.body, ast.Call) and call_name(n.body) == 'copy' and 'initial_state' in ast.unparse(n.body.func):
-            t = ast.unparse(n.test)
-            in_loop = any(isinstance(l, ast.For) and 'resolvers' in ast.unparse(l.iter) for l in enclosing_loops(sis.mod.parents(), n, ssi))
-            ok = in_loop and 'len(resolvers) - 1' in t and '<' in t and ast.unparse(n.orelse) == 'initial_state'
+        if isinstance(n, ast.IfExp) and isinstance(n.body, ast.Call) and call_name(n.body) == 'copy' and isinstance(n.body.func, ast.Attribute) \
+                and isinstance(n.body.func.value, ast.Name) and n.body.func.value.id in state_params:
+            loops = [l for l in enclosing_loops(sis.mod.parents(), n, ssi) if isinstance(l, ast.For)]
+            ok = any(is_all_but_last_test(n.test, l) for l in loops) and isinstance(n.orelse, ast.Name) and n.orelse.id == n.body.func.value.id
     ctx.ob(rid, f'{sis.qual}.simulate_sweep_iter:per-point-copy', ok, '' if ok else 'sweep points share one simulation state (it is not copied for every point but the last)', sis.mod.rel, ssi.lineno)
 
 
